@@ -45,8 +45,11 @@ func (checker *ChecksumChecker) IsUpToDate(t *ast.Task) (bool, error) {
 
 	// The new checksum is only written to a pending file here. It becomes
 	// the task's checksum once the task has run successfully (see
-	// OnSuccess), so an interrupted run leaves no trace of success.
-	if !checker.dry && oldHash != newHash {
+	// OnSuccess), so an interrupted run leaves no trace of success. It is
+	// written by every check, also when the checksum has not changed, so that
+	// a pending file left behind by an interrupted run is never promoted by a
+	// later run that was checked against different sources.
+	if !checker.dry {
 		_ = os.MkdirAll(filepathext.SmartJoin(checker.tempDir, "checksum"), 0o755)
 		if err = os.WriteFile(checksumFile+pendingSuffix, []byte(newHash+"\n"), 0o644); err != nil {
 			return false, err
